@@ -77,6 +77,29 @@ func (pc *parentController) claimRevisions(parent *unstructured.Unstructured) ([
 	return revisions, nil
 }
 
+// addGeneratedSelectorLabel adds the controller-uid label to desired children
+// when selector generation is enabled, so they match the generated selector.
+func (pc *parentController) addGeneratedSelectorLabel(parent *unstructured.Unstructured, children []*unstructured.Unstructured) {
+	if !pc.isUsingGeneratedLabelSelector() {
+		return
+	}
+	for _, obj := range children {
+		// We don't use GetLabels() because that swallows conversion errors;
+		// invalid labels are reported when the desired children are validated.
+		objLabels, _, err := unstructured.NestedStringMap(obj.UnstructuredContent(), "metadata", "labels")
+		if err != nil {
+			continue
+		}
+		if objLabels == nil {
+			objLabels = make(map[string]string, 1)
+		}
+		if _, ok := objLabels["controller-uid"]; !ok {
+			objLabels["controller-uid"] = string(parent.GetUID())
+			obj.SetLabels(objLabels)
+		}
+	}
+}
+
 func (pc *parentController) syncRevisions(parent *unstructured.Unstructured, observedChildren, relatedObjects commonv2.UniformObjectMap) (*v1.CompositeHookResponse, error) {
 	// If no child resources use rolling updates, just sync the latest parent.
 	// Also, if the parent object is being deleted and we don't have a finalizer,
@@ -166,6 +189,9 @@ func (pc *parentController) syncRevisions(parent *unstructured.Unstructured, obs
 				return
 			}
 			pr.syncResult = syncResult
+			// The rollout logic below compares these desired children with the
+			// observed ones, so they must already carry the generated selector label.
+			pc.addGeneratedSelectorLabel(parent, syncResult.Children)
 			pr.desiredChildMap = commonv1.MakeRelativeObjectMap(parent, syncResult.Children)
 		}(pr)
 	}
